@@ -106,4 +106,30 @@ theorem kekule_of_aromatic_form (k t : Mol) (h : IsAromFormOf k t)
     cases hx0
     rfl
 
+theorem lookup_five {α : Type} (a b c d e : α) (n : Nat) (y : α)
+    (h : [(1, a), (2, b), (3, c), (4, d), (5, e)].lookup n = some y) :
+    (n = 1 ∧ y = a) ∨ (n = 2 ∧ y = b) ∨ (n = 3 ∧ y = c) ∨ (n = 4 ∧ y = d) ∨ (n = 5 ∧ y = e) := by
+  simp only [List.lookup_cons, List.lookup_nil] at h
+  by_cases h1 : n = 1
+  · subst h1; simp at h; exact Or.inl ⟨rfl, h.symm⟩
+  have e1 : (n == 1) = false := by simpa using h1
+  rw [e1] at h
+  by_cases h2 : n = 2
+  · subst h2; simp at h; exact Or.inr (Or.inl ⟨rfl, h.symm⟩)
+  have e2 : (n == 2) = false := by simpa using h2
+  rw [e2] at h
+  by_cases h3 : n = 3
+  · subst h3; simp at h; exact Or.inr (Or.inr (Or.inl ⟨rfl, h.symm⟩))
+  have e3 : (n == 3) = false := by simpa using h3
+  rw [e3] at h
+  by_cases h4 : n = 4
+  · subst h4; simp at h; exact Or.inr (Or.inr (Or.inr (Or.inl ⟨rfl, h.symm⟩)))
+  have e4 : (n == 4) = false := by simpa using h4
+  rw [e4] at h
+  by_cases h5 : n = 5
+  · subst h5; simp at h; exact Or.inr (Or.inr (Or.inr (Or.inr ⟨rfl, h.symm⟩)))
+  have e5 : (n == 5) = false := by simpa using h5
+  rw [e5] at h
+  simp at h
+
 end ChythonModel.Proofs.C05
